@@ -197,7 +197,14 @@ func (tb *tables) admitsTwo(t reflect.Type, depth int) bool {
 	switch t.Kind() {
 	case reflect.Bool, reflect.Int, reflect.Int8, reflect.Int16, reflect.Int32, reflect.Int64, reflect.Uint, reflect.Uint8, reflect.Uint16, reflect.Uint32, reflect.Uint64, reflect.Float32, reflect.Float64, reflect.String:
 		return true
-	case reflect.Slice, reflect.Map:
+	case reflect.Slice:
+		return true // the length already varies
+	case reflect.Map:
+		// a map over a small key domain (enum, bool) fills up completely on
+		// every call: it varies only if its values do
+		if _, isEnum := tb.enums[t.Key()]; isEnum || t.Key().Kind() == reflect.Bool {
+			return tb.admitsTwo(t.Elem(), depth+1)
+		}
 		return true
 	case reflect.Array:
 		return t.Len() > 0 && tb.admitsTwo(t.Elem(), depth+1)
@@ -330,6 +337,9 @@ func equalish(a, b reflect.Value) bool {
 	}
 }
 
+// callTimeoutSeconds is the wall-clock budget of one generated call.
+var callTimeoutSeconds = 10
+
 // Child executes every function of the program K times under seeds derived
 // from seed0, printing a line-oriented log on stdout.
 func Child(p *Program, seed0 int64, k int, only string) {
@@ -347,7 +357,8 @@ func Child(p *Program, seed0 int64, k int, only string) {
 	tick := make(chan struct{}, 1)
 	go func() {
 		last := ""
-		timer := time.NewTimer(10 * time.Second)
+		limit := time.Duration(callTimeoutSeconds) * time.Second
+		timer := time.NewTimer(limit)
 		for {
 			select {
 			case last = <-current:
@@ -357,8 +368,12 @@ func Child(p *Program, seed0 int64, k int, only string) {
 					default:
 					}
 				}
-				timer.Reset(10 * time.Second)
+				timer.Reset(limit)
 			case <-timer.C:
+				if last == "" {
+					timer.Reset(limit) // between two calls: the oracle is working
+					continue
+				}
 				fmt.Fprintf(os.Stdout, "TIMEOUT %s\n", last)
 				os.Exit(3)
 			}
@@ -391,6 +406,7 @@ func Child(p *Program, seed0 int64, k int, only string) {
 				}()
 				val = f.Call()
 			}()
+			current <- "" // returned: the watchdog only times the generated function, not the oracle
 			st.Calls++
 			report := func(clause, detail string) {
 				b, _ := json.Marshal(Viol{Func: f.Name, Seed: seed, Clause: clause, Detail: detail})
@@ -422,7 +438,7 @@ func Child(p *Program, seed0 int64, k int, only string) {
 			// JSON round trip (skipped for bare interface results: the wire
 			// format of a union is defined for union-typed components)
 			if holder.Kind() != reflect.Interface && !anonUnionContainer(tb, holder.Type()) {
-				b, err := json.Marshal(holder.Interface())
+				b, err := safeMarshal(holder.Interface())
 				if err != nil {
 					report("json_round_trip", "marshal: "+err.Error())
 					continue
@@ -468,6 +484,16 @@ func Child(p *Program, seed0 int64, k int, only string) {
 	b, _ := json.Marshal(stats)
 	fmt.Fprintf(out, "DONE %s\n", b)
 	out.Flush()
+}
+
+// safeMarshal turns a panic inside a generated MarshalJSON into an error.
+func safeMarshal(v any) (b []byte, err error) {
+	defer func() {
+		if r := recover(); r != nil {
+			err = fmt.Errorf("panic while marshalling: %v", r)
+		}
+	}()
+	return json.Marshal(v)
 }
 
 func clip(s string) string {
